@@ -140,6 +140,10 @@ func Events() int { mu.Lock(); defer mu.Unlock(); return len(events) }
 // Yield is an extra scheduling point.
 func Yield() { runtime.Gosched() }
 
+// Pause models a long-running stretch of code: under the engine any other
+// runnable goroutine may be scheduled here without spending a preemption.
+func Pause() { runtime.Gosched() }
+
 // Schedule enables schedule exploration with preemption bound p.
 func Schedule(p int) {}
 
